@@ -200,7 +200,7 @@ def stat_search(ctx, n, n_theta):
     return hits
 
 
-def run(ctx):
+def _run(ctx):
     quick = ctx.tier == 'quick'
     status = biv.generate(ctx)
     needed = ['bivariate_sample', 'bivariate_percent_point'] + [f'{f}_percent_point' for f in FAMS] + [f'{f}_partial_derivative' for f in FAMS] \
@@ -225,3 +225,16 @@ def run(ctx):
     ctx.trusted += ['numpy.random.uniform draws are independent U(0,1) ("area = probability") - not a theorem; scipy brentq oracle as in C08']
     ctx.assumptions += ['statistical clauses (uniform margins, tau, joint CDF of the SAMPLE) are residue: proved is that the output law is the copula given ideal uniform draws',
                         'the statistical oracles of the witness search have total false-alarm probability < 1e-9 per run']
+
+
+def run(ctx):
+    """the check proper, then the history / memory-layout oracles on the real classes (always, also after a broken translation)"""
+    from .. import extra_oracles
+    try:
+        _run(ctx)
+    finally:
+        try:
+            extra_oracles.biv_extra(ctx, 'C09')
+        except Exception as ex:       # the oracle itself must never hide the result of the check proper
+            ctx.obligation('oracle:extra:raised', False, 'correspondence', repr(ex))
+            ctx.violation('oracle:extra:raised:' + type(ex).__name__, 'history/layout oracle raised ' + repr(ex), {'repro': '# see tools/vf/extra_oracles.py'})
